@@ -95,7 +95,7 @@ PROPS = {
               "double-and-add; scale_by_cofactor multiplies by exactly h1 / h2. Closure of the subgroup under the group operations is group theory over "
               "the contracts of C01/C02; hash and map outputs: C14; decoders: C04/C19.",
         not_covered=["random(): rejection loop over an RNG", "generators: [r]G = O is established by the baseline tests g1_generator / g2_generator, not by the verifier",
-                     "Fr MODULUS = r, B_COEFF = 4 and the G1 generator coordinates (standard values, on the curve) are checked as closed terms in unit consts; the G2 generator is not"],
+                     "Fr MODULUS = r, B_COEFF = 4 and the G1 and G2 generator coordinates (standard values, on the curve) are checked as closed terms in unit consts"],
         assumptions=[A['A3'], A['A4'], "ff::BitIterator contract (MSB-first bits of the limb value) assumed: dependency", A['D_FQ'], A['TOOLS']],
     ),
     'C02': dict(
@@ -173,7 +173,7 @@ PROPS = {
               "(G2: together with y^2 = g(x2)), Y = y Z^3, and sgn0(y) = sgn0(u) whenever y != 0.",
         not_covered=["that x1 is chosen exactly when g(x1) is a square, and the curve equation of the second candidate in G1 (Euler's criterion, A8)",
                      "that the G2 map's terminal panic is unreachable (A8; replaced by an assumed-unreachable stub)",
-                     "values of ROOTS_OF_UNITY and ETAS (not checked); XI = 11 resp. -(2+I), A', B' of both isogenous curves and SQRT_M_XI_CUBED^2 = -11^3 ARE checked as closed terms against RFC 9380 8.8 in unit consts"],
+                     "ROOTS_OF_UNITY squared = (1, -1, -u, u) and ETAS squared = xi^3 times the four primitive 8th roots of unity ARE checked as closed terms, as are XI = 11 resp. -(2+I), A', B' of both isogenous curves and SQRT_M_XI_CUBED^2 = -11^3 ARE checked as closed terms against RFC 9380 8.8 in unit consts"],
         assumptions=[A['A8'], A['D_FQ'], "laws of fpow / f2pow (specs/fpow.vrs: ring theory)", A['TOOLS'], "rewrites R11 (slice patterns), R4 (slice loops), R9a (terminal panic)"],
     ),
     'C08': dict(
